@@ -97,4 +97,5 @@ uint64_t mcx_num_states(void);
 double mcx_now(void);
 extern int mcx_verbose;
 extern const char *mcx_crash_prop;
+extern int mcx_skip_confirm;   /* set by the model when a violation comes from a run-time checker that reports each site only once */
 #endif
